@@ -6,11 +6,130 @@ import (
 	"bytes"
 	"encoding/json"
 	"fmt"
+	"os"
 
+	"github.com/btcsuite/btcd/wire"
 	"github.com/lightninglabs/pool/clientdb"
 	"github.com/lightninglabs/pool/order"
 	"github.com/lightninglabs/pool/sidecar"
+	"github.com/lightninglabs/pool/terms"
 )
+
+// c15DB is a real clientdb (bbolt file in a scratch directory) in which bids
+// carrying tickets are stored and taken through the life of a stored order.
+type c15DB struct {
+	dir string
+	db  *clientdb.DB
+	n   int
+}
+
+func c15OpenDB() (*c15DB, error) {
+	dir, err := os.MkdirTemp("", "decode-c15-")
+	if err != nil {
+		return nil, err
+	}
+	db, err := clientdb.New(dir, clientdb.DBFilename)
+	if err != nil {
+		os.RemoveAll(dir)
+		return nil, err
+	}
+	return &c15DB{dir: dir, db: db}, nil
+}
+
+func (d *c15DB) close() {
+	if d.db != nil {
+		d.db.Close()
+	}
+	os.RemoveAll(d.dir)
+}
+
+// lifecycle stores a bid with the ticket and reads the ticket back after every
+// step a stored bid goes through: SubmitOrder, UpdateOrder, StorePendingBatch
+// (staged), MarkBatchComplete (batch applied), and after closing and reopening
+// the database. It returns the first step whose read-back differs.
+func (d *c15DB) lifecycle(r *Run, t *sidecar.Ticket, tok string) string {
+	var nonce order.Nonce
+	r.Rng.Read(nonce[:])
+	kit := order.NewKit(nonce)
+	kit.Version = order.VersionSidecarChannel
+	kit.State = order.StateSubmitted
+	kit.FixedRate = uint32(1 + r.Rng.Intn(1000))
+	kit.Amt = 1_000_000
+	kit.Units = order.NewSupplyFromSats(kit.Amt)
+	kit.UnitsUnfulfilled = kit.Units
+	kit.MinUnitsMatch = 1
+	kit.MaxBatchFeeRate = 253
+	kit.LeaseDuration = 2016
+	kit.ChannelType = order.ChannelTypeScriptEnforced
+	bid := &order.Bid{Kit: *kit, SidecarTicket: t, SelfChanBalance: 7}
+
+	check := func(step string) string {
+		got, err := d.db.GetOrder(nonce)
+		if err != nil {
+			return step + ": GetOrder: " + err.Error()
+		}
+		b, ok := got.(*order.Bid)
+		if !ok {
+			return step + ": stored order is not a bid"
+		}
+		if b.SidecarTicket == nil {
+			return step + ": stored bid has no ticket"
+		}
+		if decFmtTicket(b.SidecarTicket) != tok {
+			return step + ": stored bid's ticket differs: " + decFmtTicket(b.SidecarTicket)
+		}
+		return ""
+	}
+	if err := d.db.SubmitOrder(bid); err != nil {
+		return "SubmitOrder: " + err.Error()
+	}
+	if bad := check("after SubmitOrder"); bad != "" {
+		return bad
+	}
+	if err := d.db.UpdateOrder(nonce, order.StateModifier(order.StatePartiallyFilled)); err != nil {
+		return "UpdateOrder: " + err.Error()
+	}
+	if bad := check("after UpdateOrder"); bad != "" {
+		return bad
+	}
+	var id order.BatchID
+	r.Rng.Read(id[:])
+	tx := wire.NewMsgTx(2)
+	tx.AddTxOut(&wire.TxOut{Value: 1000, PkScript: []byte{0x51}})
+	batch := &order.Batch{
+		ID: id, ExecutionFee: terms.NewLinearFeeSchedule(10, 100), BatchTX: tx,
+		MatchedOrders: map[order.Nonce][]*order.MatchedOrder{},
+	}
+	err := d.db.StorePendingBatch(batch, []order.Nonce{nonce},
+		[][]order.Modifier{{order.UnitsFulfilledModifier(3)}}, nil, nil)
+	if err != nil {
+		return "StorePendingBatch: " + err.Error()
+	}
+	if bad := check("after StorePendingBatch"); bad != "" {
+		return bad
+	}
+	if err := d.db.MarkBatchComplete(); err != nil {
+		return "MarkBatchComplete: " + err.Error()
+	}
+	if bad := check("after MarkBatchComplete"); bad != "" {
+		return bad
+	}
+	d.n++
+	if d.n%50 == 1 {
+		// close / reopen is the identity on what was stored
+		d.db.Close()
+		db, err := clientdb.New(d.dir, clientdb.DBFilename)
+		if err != nil {
+			d.db = nil
+			return "reopen: " + err.Error()
+		}
+		d.db = db
+		if bad := check("after close/reopen"); bad != "" {
+			return bad
+		}
+	}
+	return ""
+}
 
 func init() { props["C15"] = runC15 }
 
@@ -19,6 +138,7 @@ func init() { props["C15"] = runC15 }
 type c15Case struct {
 	Kind string `json:"kind"` // ticket | bytes | string
 	Hex  string `json:"hex"`
+	Orig string `json:"orig,omitempty"` // string cases: the unaltered string this one was derived from
 	Note string `json:"note,omitempty"`
 }
 
@@ -29,6 +149,13 @@ func runC15(r *Run) {
 		"(3 xor masks per byte / 3 replacement characters, all 255 / 61 in thorough tier for a subset), " +
 		"truncated at every length and extended; non-trivial = distinct ticket with >= 1 optional part"
 	mode := 0
+	store, err := c15OpenDB()
+	if err != nil {
+		r.Notes = append(r.Notes, "cannot open a scratch clientdb: "+err.Error())
+		r.Violate("scratch clientdb cannot be opened: "+err.Error(), "C15/db-setup", nil)
+		return
+	}
+	defer store.close()
 
 	runTicket := func(t *sidecar.Ticket, wf bool, full bool) {
 		tok := decFmtTicket(t)
@@ -77,7 +204,7 @@ func runC15(r *Run) {
 			}
 			// embedded in a stored bid
 			bid := &order.Bid{SidecarTicket: t, SelfChanBalance: 5, UnannouncedChannel: t.Offer.UnannouncedChannel}
-			got, stored, err := clientdb.VerifBidTlvRoundTrip(bid)
+			got, stored, err := clientdb.VerifC15BidTlvRoundTrip(bid)
 			switch {
 			case err != nil:
 				r.Count("oracle/violation")
@@ -89,6 +216,14 @@ func runC15(r *Run) {
 					"C15/bid-embedding", c15Case{Kind: "ticket", Hex: decHex(bin), Note: tok})
 			default:
 				r.Count("bid-embedding/ok")
+				// the same through the real database, incl. a completed batch
+				if bad := store.lifecycle(r, t, tok); bad != "" {
+					r.Count("oracle/violation")
+					r.Violate("ticket embedded in a stored bid: "+bad, "C15/bid-embedding-db",
+						c15Case{Kind: "ticket", Hex: decHex(bin), Note: tok})
+				} else {
+					r.Count("bid-embedding/db-lifecycle-ok")
+				}
 				// the embedded bytes are the binary form itself
 				if !bytes.Contains(stored, bin) {
 					r.Notes = append(r.Notes, "stored bid does not contain the ticket's binary form verbatim")
@@ -134,7 +269,7 @@ func runC15(r *Run) {
 				// accepted although altered
 				r.Count("oracle/violation")
 				r.Violate("altered string accepted: "+o.String(), "C15/alter-string-accepted",
-					map[string]string{"kind": "string", "hex": decHex([]byte(v)), "orig": decHex([]byte(str))})
+					c15Case{Kind: "string", Hex: decHex([]byte(v)), Orig: decHex([]byte(str))})
 			}
 		}
 		r.Emit(fmt.Sprintf("C15 mutstr %d %s", mode, decHex([]byte(str))), string(outS))
@@ -157,7 +292,14 @@ func runC15(r *Run) {
 			r.Emit("C15 de "+decHex(b), decDeserialize(b).String())
 		case "string":
 			b := decUnhex(c.Hex)
-			r.Emit("C15 dstr "+decHex(b), decDecodeString(string(b)).String())
+			o := decDecodeString(string(b))
+			r.Emit("C15 dstr "+decHex(b), o.String())
+			// an alteration of a valid string must be rejected
+			if c.Orig != "" && c.Orig != c.Hex && o.Class != "err" {
+				r.Count("oracle/violation")
+				r.Violate("altered string accepted: "+o.String(), "C15/alter-string-accepted",
+					c15Case{Kind: "string", Hex: c.Hex, Orig: c.Orig})
+			}
 		}
 	}
 	if r.ReplayFile != "" {
